@@ -427,6 +427,11 @@ CHECKS["C06"] = {
          "gen_stubs": [{"pkgpath": "github.com/ProtonMail/gluon/connector", "iface": "Connector", "type": "verifConnBase"}],
          "params": {"quick": grid(k=[1]), "thorough": grid(k=[2])},
          "cover": ["seq-created", "seq-mailboxes", "seq-flags", "seq-deleted", "seq-id-changed", "seq-redelivered"]},
+        {"name": "wire", "pkg": "internal/session", "pkgname": "session", "entry": "VerifC06Wire", "files": ["zz_verif_c18.go", "zz_verif_c18b.go", "zz_verif_c01.go", "zz_verif_c01idle.go", "zz_verif_c01idle2.go", "zz_verif_c01wire.go", "zz_verif_c06wire.go"],
+         "with": ["state_export", "backend_export", "verifdb"], "goroutines": True, "concrete_time": True, "replay_timeout_s": 90,
+         "extra_overlay": {"internal/response/zz_verif_decode.go": "internal/response/zz_verif_decode.go"},
+         "params": {"quick": [{}], "thorough": [{}]},
+         "cover": ["redelivered"]},
     ],
     "stubs": ["internal/verifdb relational model with symbolic failures per operation", "store.Store stub with symbolic failures", "runtime.NumCPU -> 1 (sequential branch of parallel.DoContext)", "no session states attached (queueStateUpdate has no receivers)"],
     "outside": ["the update goroutine / channel plumbing (updateInjector, newUser loop)", "the responses sessions would emit for the queued state updates (decided separately by C02 for the same update types)"],
@@ -533,3 +538,5 @@ CHECKS["C02"]["explanation"] += " VerifC02WireConnector: a client on the wire ha
 CHECKS["C17"]["explanation"] += " VerifC17Wire: on the wire through the real session loop with at most 4 mailboxes and 3 messages per mailbox: histories of CREATE (also with a missing superior) / APPEND / COPY: after OK every listed mailbox holds at most 3 messages (STATUS) and at most 3 mailboxes are listed; a command answered NO changed neither the list nor any count."
 
 CHECKS["C18"]["explanation"] += " VerifC18WireIsolation: two users with a client each on the wire: whatever alice does to her account (CREATE, APPEND, STORE, EXPUNGE, COPY, RENAME), everything bob's client can see (LIST, STATUS, UID FETCH of his INBOX) stays what it was and bob cannot open what alice created."
+
+CHECKS["C06"]["explanation"] = CHECKS["C06"].get("explanation", "") + " VerifC06Wire: a connector update (message created / flags updated / deleted / mailboxes+flags updated) delivered twice through the real backend appliers, seen by a client on the wire: the first delivery is announced as described at the next NOOP, the re-delivery is acknowledged without error, makes the session send no EXISTS / EXPUNGE / FETCH and leaves UID FETCH 1:* (UID FLAGS) unchanged."
